@@ -487,7 +487,209 @@ def gen_default_ports(info):
 
 
 # ------------------------------------------------------------------------------------------------
-GENERATORS = [gen_error_codes, gen_conn_wiring, gen_default_ports]
+def gen_error_consts(info):
+    """*_CODE / *_MSG constants, ErrorCode::message arms and the reject_* helpers of types/src/error.rs
+    as named Lean definitions (Gen/ErrorConsts.lean) — the server-side models refer to them by name."""
+    rel = "types/src/error.rs"
+    src = strip_comments(read(rel))
+    problems = []
+    codes = {m.group(1): int(m.group(2)) for m in re.finditer(r"pub const (\w+_CODE): i32 = (-?\d+);", src)}
+    msgs = {m.group(1): m.group(2) for m in re.finditer(r'pub const (\w+_MSG): &str = "((?:[^"\\]|\\.)*)";', src)}
+    # ErrorCode::message arms
+    msg_fn = find_block(src, r"pub const fn message\(&self\) -> &'static str\s*\{")
+    msg_of = {}
+    if msg_fn is None:
+        problems.append("fn message not found")
+    else:
+        body = find_block(msg_fn, r"match \*?self\s*\{") or ""
+        for arm in [a.strip() for a in body.split(",") if a.strip()]:
+            m = re.fullmatch(r"(\w+)(?:\(_\))?\s*=>\s*(\w+)", arm)
+            if m and m.group(2) in msgs:
+                msg_of[m.group(1)] = m.group(2)
+            else:
+                problems.append(f"message(): unrecognised arm {arm!r}")
+    # reject_* helpers: fn reject_x(limit: T) -> ErrorObjectOwned { ErrorObjectOwned::owned(CODE, MSG, Some(format!("Exceeded max limit of {limit}"))) }
+    rejects = {}
+    for m in re.finditer(r"pub fn (reject_\w+)\(limit: \w+\) -> ErrorObjectOwned\s*\{\s*ErrorObjectOwned::owned\(\s*(\w+),\s*(\w+),\s*Some\(format!\(\"((?:[^\"\\]|\\.)*)\"\)\),?\s*\)\s*\}", src):
+        name, code, msg, fmt = m.groups()
+        if code in codes and msg in msgs and fmt.endswith("{limit}") and fmt.count("{") == 1:
+            rejects[name] = (code, msg, fmt[: -len("{limit}")])
+        else:
+            problems.append(f"{name}: unrecognised shape")
+    for need in ["reject_too_big_request", "reject_too_big_batch_request", "reject_too_big_batch_response", "reject_too_many_subscriptions"]:
+        if need not in rejects:
+            problems.append(f"{need} not found")
+    ok = not problems
+
+    def lstr(x):
+        return '"' + x.replace("\\", "\\\\").replace('"', '\\"') + '"' if False else json.dumps(x)
+
+    L = ["/- GENERATED by /verif/tools/translate.py from types/src/error.rs — do not edit. -/", "namespace Jrpc.Gen.E", ""]
+    L.append(f"def errorConstsTranslatorOk : Bool := {'true' if ok else 'false'}")
+    L.append("")
+    for k, v in sorted(codes.items()):
+        L.append(f"def {k} : Int := {lean_int(v)}")
+    L.append("")
+    for k, v in sorted(msgs.items()):
+        L.append(f"def {k} : String := {json.dumps(v)}")
+    L.append("")
+    L.append("/-- `ErrorCode::message` for the payload-free kinds, by code constant name -/")
+    L.append("def kindMessages : List (String × String) := [" + ", ".join(f'("{k}", {v})' for k, v in sorted(msg_of.items())) + "]")
+    L.append("")
+    for name, (code, msg, prefix) in sorted(rejects.items()):
+        L.append(f"/-- `{name}(limit)`: (code, message, data prefix before the decimal limit) -/")
+        L.append(f"def {name} : Int × String × String := ({code}, {msg}, {json.dumps(prefix)})")
+    L.append("")
+    L.append("end Jrpc.Gen.E")
+    write_if_changed(os.path.join(GEN, "ErrorConsts.lean"), "\n".join(L) + "\n")
+    info["ErrorConsts"] = {"source": rel, "ok": ok, "problems": problems, "codes": codes, "messages": msgs, "rejects": {k: list(v) for k, v in rejects.items()}}
+
+
+# ------------------------------------------------------------------------------------------------
+def gen_content_types(info):
+    """server/src/transport/http.rs `is_json`: the accepted content types (compared with eq_ignore_ascii_case)."""
+    rel = "server/src/transport/http.rs"
+    src = strip_comments(read(rel))
+    problems = []
+    body = find_block(src, r"pub fn is_json\(content_type: Option<&hyper::header::HeaderValue>\) -> bool\s*\{")
+    types = []
+    if body is None:
+        problems.append("fn is_json not found")
+    else:
+        flat = re.sub(r"\s+", " ", body)
+        m = re.fullmatch(r" ?content_type\.and_then\(\|val\| val\.to_str\(\)\.ok\(\)\)\.is_some_and\(\|content\| \{ (.*) \}\) ?", flat)
+        if not m:
+            problems.append("is_json: unrecognised shape")
+        else:
+            for term in m.group(1).split("||"):
+                t = re.fullmatch(r' ?content\.eq_ignore_ascii_case\("([^"\\]*)"\) ?', term)
+                if t:
+                    types.append(t.group(1))
+                else:
+                    problems.append(f"is_json: unrecognised term {term.strip()!r}")
+    # the gate itself: `Method::POST if content_type_is_json(&request) =>`, `Method::POST => unsupported_content_type`, `_ => method_not_allowed`
+    gate_ok = bool(re.search(r"Method::POST if content_type_is_json\(&request\) =>", src)) and bool(
+        re.search(r"Method::POST => response::unsupported_content_type\(\)", src)
+    ) and bool(re.search(r"_ => response::method_not_allowed\(\)", src))
+    if not gate_ok:
+        problems.append("call_with_service: method/content-type gate not recognised")
+    ok = not problems
+    L = ["/- GENERATED by /verif/tools/translate.py from server/src/transport/http.rs — do not edit. -/", "namespace Jrpc.Gen", ""]
+    L.append(f"def contentTypesTranslatorOk : Bool := {'true' if ok else 'false'}")
+    L.append("")
+    L.append("/-- `is_json`: accepted content-type values (ASCII-case-insensitive) -/")
+    L.append("def jsonContentTypes : List String := [" + ", ".join(json.dumps(t) for t in types) + "]")
+    L.append("")
+    L.append("end Jrpc.Gen")
+    write_if_changed(os.path.join(GEN, "ContentTypes.lean"), "\n".join(L) + "\n")
+    info["ContentTypes"] = {"source": rel, "ok": ok, "problems": problems, "types": types}
+
+
+# ------------------------------------------------------------------------------------------------
+def gen_limit_wiring(info):
+    """Which ServerConfig field reaches which size limit, at every call site (C07 / C08).
+    Request-limit sites: soketto `set_max_message_size(..)` (server.rs TowerService path, ws.rs `connect`),
+    the `max_request_size` handed to `http::call_with_service` / `read_body` / `too_large`, the argument of
+    `reject_too_big_request(..)` in the WS loop.  Response-limit sites: the 2nd argument of `RpcService::new(..)`."""
+    problems = []
+    sites_req = []   # (site, field)
+    sites_resp = []
+
+    def field_of(expr, src_before):
+        """resolve an expression / local variable to a ServerConfig field name"""
+        expr = expr.strip()
+        expr = re.sub(r"\s+as\s+usize$", "", expr).strip()
+        m = re.search(r"(max_\w+_body_size)$", expr)
+        if m:
+            return m.group(1)
+        if re.fullmatch(r"\w+", expr):
+            # a local: `let <expr> = <something>.max_x_body_size;`
+            ms = list(re.finditer(r"let\s+" + re.escape(expr) + r"\s*=\s*([^;]+);", src_before))
+            if ms:
+                return field_of(ms[-1].group(1), src_before[: ms[-1].start()])
+        return None
+
+    srv = strip_comments(read("server/src/server.rs"))
+    ws = strip_comments(read("server/src/transport/ws.rs"))
+    http = strip_comments(read("server/src/transport/http.rs"))
+
+    for name, src in (("server.rs:TowerService", srv), ("ws.rs:connect", ws)):
+        ms = list(re.finditer(r"set_max_message_size\(([^;]*)\);", src))
+        if len(ms) != 1:
+            problems.append(f"{name}: expected exactly one set_max_message_size call, found {len(ms)}")
+        for m in ms:
+            f = field_of(m.group(1), src[: m.start()])
+            sites_req.append((name + ":set_max_message_size", f or "?"))
+            if not f:
+                problems.append(f"{name}: cannot resolve {m.group(1)!r}")
+
+    m = re.search(r"http::call_with_service\(\s*request\s*,\s*\w+\s*,\s*(\w+)\s*,\s*rpc_service\s*\)", srv)
+    if m:
+        f = field_of(m.group(1), srv[: m.start()])
+        sites_req.append(("server.rs:TowerService:http::call_with_service", f or "?"))
+        if not f:
+            problems.append("server.rs: cannot resolve the request limit passed to call_with_service")
+    else:
+        problems.append("server.rs: call to http::call_with_service not found")
+
+    m = re.search(r"let ServerConfig \{([^}]*)\} = server_cfg;\s*let rpc_service = [^;]*;\s*let rp = call_with_service\(\s*request\s*,\s*\w+\s*,\s*(\w+)\s*,\s*rpc_service\s*\)", http, flags=re.S)
+    if m and m.group(2) in [x.strip() for x in m.group(1).split(",")]:
+        sites_req.append(("http.rs:call_with_service_builder", m.group(2)))
+    else:
+        problems.append("http.rs: call_with_service_builder wiring not recognised")
+
+    m = re.search(r"pub async fn call_with_service<[^>]*>\(\s*request: [^,]*,\s*batch_config: [^,]*,\s*(\w+): u32,\s*rpc_service: S,?\s*\)", http, flags=re.S)
+    if m:
+        param = m.group(1)
+        body = http[m.end():]
+        m1 = re.search(r"read_body\(&parts\.headers, body, (\w+)\)", body)
+        m2 = re.search(r"response::too_large\((\w+)\)", body)
+        sites_req.append(("http.rs:call_with_service:read_body", "max_request_body_size" if (m1 and m1.group(1) == param) else "?"))
+        sites_req.append(("http.rs:call_with_service:too_large", "max_request_body_size" if (m2 and m2.group(1) == param) else "?"))
+        if not (m1 and m1.group(1) == param and m2 and m2.group(1) == param):
+            problems.append("http.rs: read_body / too_large do not use the request-size parameter")
+    else:
+        problems.append("http.rs: fn call_with_service signature not recognised")
+
+    m = re.search(r"let ServerConfig \{([^}]*)\} = server_cfg;", ws)
+    m2 = re.search(r"reject_too_big_request\((\w+)\)", ws)
+    if m and m2 and m2.group(1) in [x.strip() for x in m.group(1).split(",")]:
+        sites_req.append(("ws.rs:background_task:reject_too_big_request", m2.group(1)))
+    else:
+        problems.append("ws.rs: reject_too_big_request argument not recognised")
+
+    for name, src in (("server.rs:TowerService:ws", srv), ("ws.rs:connect", ws), ("http.rs:call_with_service_builder", http)):
+        found = False
+        for m in re.finditer(r"RpcService::new\(\s*([^,]+),\s*([^,]+),", src):
+            f = field_of(m.group(2), src[: m.start()])
+            sites_resp.append((name + ":RpcService::new", f or "?"))
+            found = True
+        if not found:
+            problems.append(f"{name}: RpcService::new not found")
+    # server.rs has a second RpcService::new on the HTTP path using a local
+    ok = not problems
+
+    def lf(f):
+        return {"max_request_body_size": ".maxRequestBodySize", "max_response_body_size": ".maxResponseBodySize"}.get(f, ".other")
+
+    L = ["/- GENERATED by /verif/tools/translate.py from server/src/{server.rs,transport/ws.rs,transport/http.rs} — do not edit. -/", "namespace Jrpc.Gen", ""]
+    L.append(f"def limitWiringTranslatorOk : Bool := {'true' if ok else 'false'}")
+    L.append("")
+    L.append("inductive LimitField where\n  | maxRequestBodySize\n  | maxResponseBodySize\n  | other\n  deriving DecidableEq, Repr")
+    L.append("")
+    L.append("/-- every site where a limit on *incoming* messages is configured or reported, with the ServerConfig field used -/")
+    L.append("def requestLimitSites : List (String × LimitField) := [\n" + ",\n".join(f'  ("{n}", {lf(f)})' for n, f in sites_req) + "\n]")
+    L.append("")
+    L.append("/-- every site where the limit on *responses* is handed to the RPC service -/")
+    L.append("def responseLimitSites : List (String × LimitField) := [\n" + ",\n".join(f'  ("{n}", {lf(f)})' for n, f in sites_resp) + "\n]")
+    L.append("")
+    L.append("end Jrpc.Gen")
+    write_if_changed(os.path.join(GEN, "LimitWiring.lean"), "\n".join(L) + "\n")
+    info["LimitWiring"] = {"source": "server/src/server.rs, server/src/transport/ws.rs, server/src/transport/http.rs", "ok": ok, "problems": problems, "request_sites": sites_req, "response_sites": sites_resp}
+
+
+# ------------------------------------------------------------------------------------------------
+GENERATORS = [gen_error_codes, gen_error_consts, gen_content_types, gen_limit_wiring, gen_conn_wiring, gen_default_ports]
 
 
 def main():
